@@ -141,6 +141,10 @@ func runBlockBase(sc *BlockCase, res *BlockResult) {
 	if sc.L == "connectWrite" {
 		plan.Writes = []netsim.FaultRule{{K: 1, O: "cutBefore"}}
 	}
+	if sc.Cause == "closeAfterFailedDisconnect" {
+		// the DISCONNECT write reports an error and leaves the transport open
+		plan.Writes = append(plan.Writes, netsim.FaultRule{P: "DISCONNECT", N: 1, O: "writeErr"})
+	}
 	silentConnack := sc.L == "atRLock" || sc.K == "connect"
 	if silentConnack {
 		plan.ConnAcks = []netsim.ConnAckPlan{{Silent: true}}
@@ -334,6 +338,48 @@ func runBlockBase(sc *BlockCase, res *BlockResult) {
 		t.PeerClose()
 	case "malformed":
 		t.SendRaw([]byte{0xF0, 0x00}, "reserved-type")
+	case "closeAfterFailedDisconnect":
+		// another goroutine's Disconnect fails to write DISCONNECT (it returns the error, the transport stays open);
+		// the application then ends the connection with Close()
+		dctx, dcancel := context.WithTimeout(root, time.Second)
+		derr := cli.Disconnect(dctx)
+		dcancel()
+		if derr == nil || t.IsClosed() {
+			res.Steered = false
+			res.Note = "Disconnect did not fail as planned"
+			return
+		}
+		also = make(chan callRet, 1)
+		also <- callRet{derr, time.Now()}
+		res.Also = "disconnect"
+		t0 = time.Now()
+		cli.Close()
+	case "closeAfterStuckDisconnect":
+		// another goroutine's Disconnect is blocked inside the DISCONNECT write (a peer that stopped reading) when the
+		// application calls Close(); the blocked write returns once the transport is closed (A4)
+		g := w.GateAtNextWrite()
+		dret := make(chan callRet, 1)
+		go func() {
+			dctx, dcancel := context.WithTimeout(root, 5*time.Second)
+			defer dcancel()
+			dret <- callRet{cli.Disconnect(dctx), time.Now()}
+		}()
+		select {
+		case <-g.Reached():
+		case <-time.After(2 * time.Second):
+			res.Steered = false
+			res.Note = "Disconnect did not reach its write"
+			g.Release()
+			return
+		}
+		go func() {
+			waitFor(t.IsClosed, 6*time.Second)
+			g.Release()
+		}()
+		also = dret
+		res.Also = "disconnect"
+		t0 = time.Now()
+		cli.Close()
 	case "otherDisconnect":
 		// another goroutine ends the session gracefully while the call waits: the waiting call ends with an error
 		// (its acknowledgement did not come), Disconnect itself returns
@@ -375,6 +421,8 @@ func runBlockBase(sc *BlockCase, res *BlockResult) {
 	// cleanup: end everything that may still be blocked
 	rootCancel()
 	cli.Close()
+	t.Close()
+	w.ReleaseAllGates()
 	if !res.Returned {
 		select {
 		case <-ret:
